@@ -1,6 +1,8 @@
 package sim
 
 import (
+	"sort"
+	"os"
 	"context"
 	"fmt"
 	"math/rand"
@@ -79,6 +81,25 @@ type Outcome struct {
 	RealNs     int64
 	Races      []RaceReport // free-running mode: reports the race detector wrote during this run
 	Twin       *Outcome     // outcome of the derived scenario (Scenario.Twin), executed after this one
+	// LeakedSockets: sockets the process holds after the run that it did not hold before it (the
+	// simulated wire and services own no descriptors; the real listeners of the scenario are closed
+	// by then): descriptors the code under test opened and never closed, e.g. a reserved local port
+	LeakedSockets []string
+}
+
+// socketFDs lists the socket descriptors of the process (descriptor number and inode).
+func socketFDs() map[string]bool {
+	out := map[string]bool{}
+	ents, err := os.ReadDir("/proc/self/fd")
+	if err != nil {
+		return out
+	}
+	for _, e := range ents {
+		if l, err := os.Readlink("/proc/self/fd/" + e.Name()); err == nil && strings.HasPrefix(l, "socket:") {
+			out[e.Name()+"="+l] = true
+		}
+	}
+	return out
 }
 
 // RealTimeDialTimeout reports that a real TCP connect of the SACK path ran into its deadline. That
@@ -179,6 +200,15 @@ func executeOne(t *testing.T, sc *Scenario, keepLog bool) (out *Outcome) {
 	install()
 	out = &Outcome{Sc: sc}
 	start := time.Now()
+	before := socketFDs()
+	defer func() {
+		for k := range socketFDs() {
+			if !before[k] {
+				out.LeakedSockets = append(out.LeakedSockets, k)
+			}
+		}
+		sort.Strings(out.LeakedSockets)
+	}()
 	defer func() {
 		out.RealNs = time.Since(start).Nanoseconds()
 		current.Store(nil)
